@@ -101,52 +101,52 @@ Proof.
 Qed.
 
 Lemma no_cycle g (a : nat -> nat) m : GI g -> 3 <= m ->
-  (forall i, i + 1 < m -> pairT g (a (i + 1)) (a i)) ->
-  pairT g (a 0) (a (m - 1)) ->
+  (forall i, i + 1 < m -> pairT g (a (i + 1)%nat) (a i)) ->
+  pairT g (a 0) (a (m - 1)%nat) ->
   (forall i j, i < m -> j < m -> a i = a j -> i = j) -> False.
 Proof.
-  intros HG Hm P Q ND.
-  set (v := fun i => simq g (a (i + 1)) (a i)).
-  set (vt := simq g (a 0) (a (m - 1))).
-  assert (P2 : forall i, i + 2 < m -> pairT g (a (i + 2)) (a (i + 1))).
+  intros HG Hm P PQ ND.
+  set (v := fun i => simq g (a (i + 1)%nat) (a i)).
+  set (vt := simq g (a 0) (a (m - 1)%nat)).
+  assert (P2 : forall i, i + 2 < m -> pairT g (a (i + 2)%nat) (a (i + 1)%nat)).
   { intros i Hi. replace (i + 2) with (i + 1 + 1) by lia. apply P. lia. }
-  assert (Pm : pairT g (a (m - 1)) (a (m - 2))).
+  assert (Pm : pairT g (a (m - 1)%nat) (a (m - 2)%nat)).
   { replace (m - 1) with (m - 2 + 1) by lia. apply P. lia. }
-  assert (N2 : forall i, i + 2 < m -> isnb g (a (i + 1)) (a (i + 2))).
+  assert (N2 : forall i, i + 2 < m -> isnb g (a (i + 1)%nat) (a (i + 2)%nat)).
   { intros i Hi. apply isnb_sym; [exact HG|]. apply (P2 i Hi). }
-  assert (V2 : forall i, i + 2 < m -> (simq g (a (i + 1)) (a (i + 2)) == v (i + 1))%Q).
+  assert (V2 : forall i, i + 2 < m -> (simq g (a (i + 1)%nat) (a (i + 2)%nat) == v (i + 1)%nat)%Q).
   { intros i Hi. unfold v. replace (i + 1 + 1) with (i + 2) by lia. apply simq_sym. exact HG. }
-  assert (Step : forall i, i + 2 < m -> (v (i + 1) <= v i)%Q).
+  assert (Step : forall i, i + 2 < m -> (v (i + 1)%nat <= v i)%Q).
   { intros i Hi. rewrite <- (V2 i Hi). unfold v. destruct (P i) as (_ & Mx & _); [lia|]. apply Mx. now apply N2. }
-  assert (Mono : forall d i, i + d + 1 < m -> (v (i + d) <= v i)%Q).
+  assert (Mono : forall d i, i + d + 1 < m -> (v (i + d)%nat <= v i)%Q).
   { induction d as [|d IH]; intros i Hi.
     - replace (i + 0) with i by lia. lra.
-    - assert (A : (v (i + d) <= v i)%Q) by (apply IH; lia).
-      assert (B : (v (i + d + 1) <= v (i + d))%Q) by (apply Step; lia).
+    - assert (A : (v (i + d)%nat <= v i)%Q) by (apply IH; lia).
+      assert (B : (v (i + d + 1)%nat <= v (i + d)%nat)%Q) by (apply Step; lia).
       replace (i + S d) with (i + d + 1) by lia. lra. }
   assert (N01 : isnb g (a 0) (a 1)).
   { apply isnb_sym; [exact HG|]. apply (P 0). lia. }
-  assert (V01 : (simq g (a 0) (a 1) == v 0)%Q) by (unfold v; apply simq_sym; exact HG).
-  assert (Top : (v 0 <= vt)%Q).
-  { rewrite <- V01. unfold vt. destruct Q as (_ & Mx & _). now apply Mx. }
-  assert (Nm0 : isnb g (a (m - 1)) (a 0)).
-  { apply isnb_sym; [exact HG|]. apply Q. }
-  assert (Vm0 : (simq g (a (m - 1)) (a 0) == vt)%Q) by (unfold vt; apply simq_sym; exact HG).
-  assert (Vm2 : v (m - 2) = simq g (a (m - 1)) (a (m - 2))).
+  assert (V01 : (simq g (a 0) (a 1) == v 0%nat)%Q) by (unfold v; apply simq_sym; exact HG).
+  assert (Top : (v 0%nat <= vt)%Q).
+  { rewrite <- V01. unfold vt. destruct PQ as (_ & Mx & _). now apply Mx. }
+  assert (Nm0 : isnb g (a (m - 1)%nat) (a 0)).
+  { apply isnb_sym; [exact HG|]. apply PQ. }
+  assert (Vm0 : (simq g (a (m - 1)%nat) (a 0%nat) == vt)%Q) by (unfold vt; apply simq_sym; exact HG).
+  assert (Vm2 : v (m - 2)%nat = simq g (a (m - 1)%nat) (a (m - 2)%nat)).
   { unfold v. replace (m - 2 + 1) with (m - 1) by lia. reflexivity. }
-  assert (Bot : (vt <= v (m - 2))%Q).
+  assert (Bot : (vt <= v (m - 2)%nat)%Q).
   { rewrite <- Vm0, Vm2. destruct Pm as (_ & Mx & _). now apply Mx. }
   assert (All : forall i, i + 1 < m -> (v i == vt)%Q).
   { intros i Hi.
-    assert (A : (v (0 + i) <= v 0)%Q) by (apply Mono; lia).
-    assert (B : (v (i + (m - 2 - i)) <= v i)%Q) by (apply Mono; lia).
+    assert (A : (v (0 + i)%nat <= v 0%nat)%Q) by (apply Mono; lia).
+    assert (B : (v (i + (m - 2 - i))%nat <= v i)%Q) by (apply Mono; lia).
     replace (0 + i) with i in A by lia. replace (i + (m - 2 - i)) with (m - 2) in B by lia. lra. }
   apply (alt_cycle a m Hm).
   - intros i Hi. destruct (P i) as (_ & _ & T); [lia|].
-    assert (L : a i <= a (i + 2)).
+    assert (L : a i <= a (i + 2)%nat).
     { apply T; [now apply N2|]. rewrite (V2 i Hi). fold (v i). rewrite (All i), (All (i + 1)) by lia. reflexivity. }
-    assert (a i <> a (i + 2)) by (intros E; apply ND in E; lia). lia.
-  - destruct Q as (_ & _ & T).
+    assert (a i <> a (i + 2)%nat) by (intros E; apply ND in E; lia). lia.
+  - destruct PQ as (_ & _ & T).
     assert (L : a (m - 1) <= a 1).
     { apply T; [exact N01|]. rewrite V01. fold vt. apply All. lia. }
     assert (a (m - 1) <> a 1) by (intros E; apply ND in E; lia). lia.
